@@ -57,7 +57,7 @@ def run_verus_unit(repo, unit_name, variant, workdir, log, only_fns=None):
     import re as _re0
     import types as _types
     helpers = []
-    for _round in range(4):
+    for _round in range(8):
         try:
             u2 = unit
             if helpers:
@@ -84,7 +84,7 @@ def run_verus_unit(repo, unit_name, variant, workdir, log, only_fns=None):
             res["status"] = "undecided"
             res["undecided"].append("extraction: %s" % e)
             return res
-        if _round == 3:
+        if _round == 7:
             break
         # quick type-check pass to discover missing helper methods
         probe = V.run_verus(bu, os.path.join(workdir, "probe_" + unit_name), rlimit=1, extra_args=["--no-verify"], timeout=120)
@@ -94,7 +94,7 @@ def run_verus_unit(repo, unit_name, variant, workdir, log, only_fns=None):
             if d["level"] == "error" and m and d["line"]:
                 fnmap0, _lm0 = _fn_ranges(bu)
                 owner = fnmap0.get(d["line"])
-                if owner and not any(h["name"] == m.group(1) for h in helpers):
+                if owner and not any(h["name"] == m.group(1) and h["after"] == owner for h in helpers):
                     # the receiver's type name (`&mut Foo<'_, T>` -> Foo) narrows the search when several types have such a method
                     mt = _re0.search(r"([A-Za-z_][A-Za-z0-9_]*)\s*(?:<.*)?$", m.group(2).replace("&mut ", "").replace("&", "").strip())
                     missing = {"name": m.group(1), "after": owner, "recv": mt.group(1) if mt else None}
@@ -103,10 +103,10 @@ def run_verus_unit(repo, unit_name, variant, workdir, log, only_fns=None):
             # a free helper function (not a method) that the unit does not declare: inlined the same way
             for d in probe["diags"]:
                 m = _re0.match(r"cannot find function `(\w+)` in this scope", d["msg"])
-                if d["level"] == "error" and m and d["line"] and not any(h["name"] == m.group(1) for h in helpers):
+                if d["level"] == "error" and m and d["line"]:
                     fnmap0, _lm0 = _fn_ranges(bu)
                     owner = fnmap0.get(d["line"])
-                    if owner:
+                    if owner and not any(h["name"] == m.group(1) and h["after"] == owner for h in helpers):
                         missing = {"name": m.group(1), "after": owner}
                         break
         if not missing:
